@@ -819,6 +819,28 @@ def individual_case(ctx, rng, idx):
                   'posterior_gradient': np.asarray(gp).shape,
                   'expected': len(want), 'ops': ops}, feats)
             return
+        # a vector of the reported length outside the support of an error
+        # parameter (a proposal of a gradient-based sampler) is still
+        # answered with a gradient of the reported length
+        err_free = [i for i, n in enumerate(want)
+                    if full.index(n) >= case.n_mech]
+        if err_free:
+            xb = np.array(x)
+            xb[err_free[int(rng.integers(len(err_free)))]] = \
+                [0.0, -0.3][int(rng.integers(2))]
+            try:
+                sb, gb = ll.evaluateS1(xb)
+            except Exception as e:      # noqa
+                ctx.violation_exc('vector_of_reported_length_evaluates', e,
+                                  {'ops': ops, 'case': case.describe(),
+                                   'outside the support': xb}, feats)
+                return
+            ctx.count('gradient_lengths_checked')
+            if np.asarray(gb).shape != (len(want),):
+                _bad(ctx, 'individual_lengths',
+                     {'gradient outside the support': np.asarray(gb).shape,
+                      'expected': len(want), 'ops': ops}, feats)
+                return
 
 
 # ------------------------------------------------------ mechanistic models
